@@ -122,7 +122,8 @@ Definition s_entries (lo hi max : N) (l : list entry) : err * list entry :=
   else (Ok, limit_size max (slice lo hi l)).
 
 (* Term: index 0 answers 0; an index inside the log answers its term; otherwise the store falls back on the
-   snapshot index/term it keeps in the meta file *)
+   snapshot index/term it keeps in the meta file. A store that holds no entry at all answers 'compacted' for every
+   index >= 1 (etcd's MemoryStorage says 'unavailable' there; raft never asks beyond the last index). *)
 Definition s_term (i : N) (a : alog) : err * N :=
   if i =? 0 then (Ok, 0)
   else match lookup i (a_ents a) with
@@ -130,7 +131,8 @@ Definition s_term (i : N) (a : alog) : err * N :=
        | None =>
            if i <? snap_i (a_meta a) then (Compacted, 0)
            else if i =? snap_i (a_meta a) then (Ok, snap_t (a_meta a))
-           else if i <? a_first a then (Compacted, 0) else (Unavailable, 0)
+           else if (i <? a_first a) || (match a_ents a with [] => true | _ => false end) then (Compacted, 0)
+           else (Unavailable, 0)
        end.
 
 Definition s_csnap (i : N) (v : option (list N)) (d : N) (a : alog) : err * alog :=
